@@ -7,6 +7,11 @@ HOOK_COMMITS = subprocess.run(
     capture_output=True, text=True).stdout.strip().splitlines()
 
 CHECKS = {
+ "C04": dict(
+   text="Seeded deterministic simulation: generated well-formed flow graphs (branching, fan-out on equal conditions, joins, early-response nodes, response chains with and without root, optional quota system flow, 1-2 flows on one URL in a load order chosen by the simulator) are loaded into the real engine and driven with steered transactions; the per-flow sequence of processor-executed events (verifhook event in the executor) is compared with a reference interpreter over the YAML connections (R1), and the presence and status of the early response with the interpreter's verdict (R2). Sampling, not proof.",
+   design_ref="DESIGN.md section 4 C04",
+   note="Trusted: the reference interpreter (40 lines) and its reading of the statement (an early response ends the whole request walk); flow references not generated; the schedule dimension is the load order only - the rest is program generation against a reference interpreter.",
+   technique="deterministic simulation: generated flow programs and steering inputs under a simulator-chosen load order, differential oracle against a reference interpreter"),
  "C03": dict(
    text="Seeded deterministic simulation in which the load order of flows - in production the iteration order of a Go map, re-drawn at every start and reload - is a scheduling decision of the simulator (verifhook.Order seam in the flow builder). Each run loads the same generated flow files under 2-4 orders (load, reloads) into the real streams engine and sends 6-24 derived transactions (request and response side). Oracles: independent segment-wise matcher for R1 only-if and R2 if (with a generous shadowing exemption), R3 the applied-flow set of every transaction is identical under every order tried (needs no matcher), R4 no action for unmatched transactions. Sampling, not proof.",
    design_ref="DESIGN.md section 4 C03",
